@@ -82,6 +82,9 @@ DATA_KINDS = {
     # Int64 / boolean column of a dataset whose column is REQUIRED
     'na-in-required-int': ('i64', False),
     'na-in-required-bool': ('bool', False),
+    # timestamps finer than the column's declared unit (a ms column, a frame
+    # in ns with digits below the millisecond): cannot be encoded as declared
+    'finer-timestamp-unit': ('tsms', True),
 }
 SHAPE_KINDS = ('columns-missing', 'columns-extra', 'column-renamed',
                'non-text-column-name', 'duplicate-column-name')
@@ -217,7 +220,7 @@ def generate(seed, idx, tier):
         return base
     # chains
     state = rng.choice(STATES)
-    victim = rng.choice(('str', 'str', 'i64', 'f64', 'bool'))
+    victim = rng.choice(('str', 'str', 'i64', 'f64', 'bool', 'tsms'))
     strict = (victim == 'str' and rng.random() < 0.4) or \
         (victim in ('i64', 'bool') and rng.random() < 0.5)
     pool = [c for c in cells if c['state'] == state and c['mode'] not in
@@ -264,6 +267,10 @@ def good_col(vtype, n, rng):
     if vtype == 'bool':
         return pd.Series(np.array([rng.random() < 0.5 for _ in range(n)],
                                   dtype=bool))
+    if vtype == 'tsms':
+        return pd.Series(np.array([1_500_000_000_000 + rng.randrange(10 ** 9)
+                                   for _ in range(n)],
+                                  dtype='datetime64[ms]'))
     return pd.Series(np.array([rng.uniform(-1e6, 1e6) for _ in range(n)],
                               dtype='float64'))
 
@@ -288,6 +295,10 @@ def poison(df, kind, col, row, vtype):
     if kind == 'none-in-required':
         s = df[name].astype('object').copy()
         s.iloc[row] = None
+        df[name] = s
+    elif kind == 'finer-timestamp-unit':
+        s = df[name].astype('datetime64[ns]').copy()
+        s.iloc[row] = s.iloc[row] + pd.Timedelta(123456, 'ns')
         df[name] = s
     elif kind == 'na-in-required-int':
         s = df[name].astype('Int64').copy()
